@@ -424,6 +424,9 @@ func (x *FnCtx) applyContract(fr *Frame, st *State, ctr *Contract, callee *ssa.F
 	pkg := x.calleePkg(ctr, callee)
 	ec := &EvalCtx{x: x, fn: callee, pkg: pkg, cur: st, old: pre, params: params, oldA: pre.heap.A}
 	for i, rq := range ctr.Requires {
+		if !x.eng.clauseActive(rq) {
+			continue
+		}
 		g, facts := ec.boolWithFacts(rq.E)
 		if ec.err != nil {
 			x.errs = append(x.errs, fmt.Sprintf("%s: requires of %s: %v", site, ctr.Key, ec.err))
@@ -462,6 +465,9 @@ func (x *FnCtx) applyContract(fr *Frame, st *State, ctr *Contract, callee *ssa.F
 	}
 	pc := &EvalCtx{x: x, fn: callee, pkg: pkg, cur: st, old: pre, params: params, results: rtvs, resNames: resNames, oldA: pre.heap.A}
 	for _, en := range append(append([]Clause{}, ctr.Ensures...), ctr.Effects...) {
+		if !x.eng.clauseActive(en) {
+			continue
+		}
 		g, facts := pc.boolWithFacts(en.E)
 		if pc.err != nil {
 			x.errs = append(x.errs, fmt.Sprintf("%s: ensures of %s: %v", site, ctr.Key, pc.err))
